@@ -113,6 +113,16 @@ def forbidden_scan():
             for m in FORBIDDEN.finditer(src_nc):
                 line = src_nc.count('\n', 0, m.start()) + 1
                 hits.append("%s:%d: %s" % (os.path.relpath(path, VERIF), line, m.group(0)))
+            # Variable / Hypothesis / Context outside a Section declare an axiom
+            depth = 0
+            for ln, text in enumerate(src_nc.splitlines(), 1):
+                t = text.strip()
+                if re.match(r"(Section|Module\s+Type)\s+\w+", t):
+                    depth += 1
+                elif re.match(r"End\s+\w+\s*\.", t) and depth > 0:
+                    depth -= 1
+                elif depth == 0 and re.match(r"(Variable|Variables|Hypothesis|Hypotheses|Context)\b", t):
+                    hits.append("%s:%d: %s outside a section" % (os.path.relpath(path, VERIF), ln, t.split()[0]))
     return hits
 
 
